@@ -567,7 +567,8 @@ fn stringify(
             // A:A will be R1C[0]:R1048576C[0]
             // So when we are forming the A1 range we need to strip the irrelevant information
             let full_row = *absolute_row1 && *absolute_row2 && (*row1 == 1) && (*row2 == LAST_ROW);
-            let full_column = *absolute_column1
+            let full_column = !full_row
+                && *absolute_column1
                 && *absolute_column2
                 && (*column1 == 1)
                 && (*column2 == LAST_COLUMN);
@@ -616,7 +617,8 @@ fn stringify(
             // A:A will be R1C[0]:R1048576C[0]
             // So when we are forming the A1 range we need to strip the irrelevant information
             let full_row = *absolute_row1 && *absolute_row2 && (*row1 == 1) && (*row2 == LAST_ROW);
-            let full_column = *absolute_column1
+            let full_column = !full_row
+                && *absolute_column1
                 && *absolute_column2
                 && (*column1 == 1)
                 && (*column2 == LAST_COLUMN);
